@@ -6,6 +6,8 @@
 import OpwVerif.Drv.KinOps2
 import OpwVerif.Drv.MiscOps
 import OpwVerif.Drv.MiscOps2
+import OpwVerif.Drv.CollOps
+import OpwVerif.Drv.PlanOps
 open Opw Opw.Proto Opw.Drv
 
 def dispatch (op : String) : Option (RM Res) :=
@@ -26,6 +28,13 @@ def dispatch (op : String) : Option (RM Res) :=
   | "h_dist" => some opHDist
   | "h_cmp" => some opHCmp
   | "c07" => some opC07
+  | "coll" => some opColl
+  | "offs" => some opOffs
+  | "h_rrt" => some opHRrt
+  | "rrt" => some opRrt
+  | "rrt_cancel" => some opRrtCancel
+  | "kws" => some opKws
+  | "kwsd" => some opKwsD
   | "c18" => some opC18
   | "frame" => some opFrame
   | "frame_tr" => some opFrameTr
